@@ -283,10 +283,44 @@ def type_sweep(chk):
                             line["outcome"], line["exc"] = "err", type(e).__name__
                         lines.append(line)
                         chk.case([entry, "type-sweep", v, typ, where, idc])
+    # references to a type that only the other spec version has (2.1-only `location` in 2.0 content; a custom type registered for 2.0 only in 2.1 content): with a version
+    # named and customisation off, that is a reference to a custom type -- refused by the parser and by every store entry point
+    register_custom()
+    for v, reftype in (("2.0", "location"), ("2.0", "note"), ("2.1", "x-verif-only20")):
+        rel = getattr(O.module(v), "Relationship")(relationship_type="related-to", source_ref="campaign--11111111-1111-4111-8111-111111111111",
+                                                  target_ref="malware--11111111-1111-4111-8111-111111111111")
+        d0 = json.loads(rel.serialize())
+        for where in ("source_ref", "target_ref"):
+            d = copy.deepcopy(d0)
+            d[where] = reftype + "--11111111-1111-4111-8111-111111111111"
+            shape = {"t": "sdo", "sv": "2.1" if v == "2.1" else "none", "hasid": True, "inner": "none"}
+            for entry in ("parse", "MemoryStore.add", "FileSystemSink.add"):
+                line = {"entry": entry, "form": "dict", "arg": v, "shape": shape, "idc": "type_of_other_version", "ac": False, "where": "%s relationship.%s -> %s" % (v, where, reftype),
+                        "d20": direct(d, False, "2.0"), "d21": direct(d, False, "2.1"), "w20": "n/a", "w21": "n/a"}
+                tmp = tempfile.mkdtemp(prefix="c14r-", dir=chk.scratch)
+                try:
+                    if entry == "parse":
+                        line["outcome"] = family(stix2.parse(copy.deepcopy(d), version=v))
+                    elif entry == "MemoryStore.add":
+                        st = stix2.MemoryStore(allow_custom=False)
+                        st.add(copy.deepcopy(d), version=v)
+                        line["outcome"] = family(st.get(d["id"]))
+                    else:
+                        stix2.FileSystemSink(tmp, allow_custom=False).add(copy.deepcopy(d), version=v)
+                        line["outcome"] = written_outcome(tmp, d, False, v)
+                    line["exc"] = "none"
+                except Exception as e:  # noqa
+                    line["outcome"], line["exc"] = "err", type(e).__name__
+                finally:
+                    shutil.rmtree(tmp, ignore_errors=True)
+                lines.append(line)
+                chk.case([entry, "reference-sweep", v, reftype, where])
     return lines
 
 
 def applicable(entry, shape, idc):
+    if idc == "type_of_other_version":
+        return False        # realised by the reference sweep (it needs a reference property), not by the shape matrix
     if (idc == "noid") != (not shape["hasid"]):
         return False
     if shape["t"] == "bundle":
